@@ -1,8 +1,11 @@
 #!/bin/bash
-# tools/try_benign.sh <dir under /tmp/benign> <checks...> : a property-preserving change must raise no alarm
+# tools/try_benign.sh <dir under /tmp/benign or /verif/benign> <checks...> : a property-preserving change must raise no alarm.
+# The change is applied to a scratch worktree of /repo (FCP_REPO points the checks at it), so /repo stays free.
 B=$1; shift
 SRC=/tmp/benign/$B; [ -d "$SRC" ] || SRC=/verif/benign/$B
-if [ -n "$(git -C /repo status --short)" ]; then echo "/repo not clean"; exit 2; fi
-git -C /repo apply $SRC/patch.diff || { echo "PATCH DOES NOT APPLY"; exit 2; }
-for c in "$@"; do echo "--- check $c on /repo + $B"; ( cd /verif && ./check $c --tier ${TIER:-quick} 2>&1 | grep -E "VIOLATION|MACHINERY|KNOWN|quick:|thorough:" | cut -c1-260 | tail -6 ); done
-git -C /repo checkout -- . ; git -C /repo clean -fdq -- src plugins 2>/dev/null; git -C /repo status --short
+WT=/tmp/vt/benign-$B
+git -C /repo worktree remove --force $WT 2>/dev/null; rm -rf $WT; mkdir -p /tmp/vt
+git -C /repo worktree add -q --detach $WT HEAD || exit 2
+( cd $WT && git apply $SRC/patch.diff ) || { echo "PATCH DOES NOT APPLY"; git -C /repo worktree remove --force $WT; exit 2; }
+for c in "$@"; do echo "--- check $c on HEAD + $B"; ( cd /verif && FCP_REPO=$WT ./check $c --tier ${TIER:-quick} 2>&1 | grep -E "VIOLATION|MACHINERY|KNOWN|quick:|thorough:" | cut -c1-260 | tail -6 ); done
+git -C /repo worktree remove --force $WT
